@@ -81,6 +81,23 @@ CHECKS = {
         "accepted; one recorded finding (C06-1) excluded by construction and reported",
         "DESIGN.md §4 C06",
     ),
+    "C07": (
+        "fault_enumeration",
+        "Hypothesis-generated session histories x keep_alive_timeout values interpreted live on "
+        "virtual-time simulators of both workers; oracle = reference timer model evaluated "
+        "during the history with exact-instant equality, plus release checks at quiescence",
+        "Histories of complete / slow / pipelined requests, partial heads, pauses of 0, T-e, T, "
+        "T+e, 2T, 1000T at every position, HTTP/2 streams, WebSocket sessions held open for up "
+        "to 1000T, provoked error responses, the shutdown flag and peer loss (EOF, reset, write "
+        "failure) idle or busy, for T from 0.01 to 10^4: the server must close at exactly "
+        "idle-start + T in virtual time (at once when shutdown has begun; no later than T after "
+        "a server-generated error response), never during a request or open WebSocket, and "
+        "after peer loss the handler and transport must be finished when the last application "
+        "returns, with no task left.",
+        "virtual clocks replace wall time (asyncio counter clock with 1e-6 resolution, trio "
+        "MockClock autojump); trio scheduling pinned by a generated seed",
+        "DESIGN.md §4 C07",
+    ),
     "C08": (
         "fault_enumeration",
         "Hypothesis-generated write plans x stalled clients x release events on virtual-time "
